@@ -27,6 +27,9 @@ def decSub (a b : Int) : Int := a - b
 def decAdd (a b : Int) : Int := a + b
 def decMulInt64 (a n : Int) : Int := a * n
 def decQuoInt64 (a n : Int) : Int := Int.tdiv a n
+/-- `Dec.Quo`: two extra digits of precision, then rounded half to even -/
+def decQuo (a b : Int) : Int := chopRound (Int.tdiv (a * E * E) b)
+def decQuoTruncate (a b : Int) : Int := Int.tdiv (a * E) b
 def decTruncateInt (a : Int) : Int := Int.tdiv a E    -- TruncateInt, TruncateDecimal (per coin)
 def decRoundInt (a : Int) : Int := chopRound a
 /-- `Dec.Ceil`: the least multiple of 10^18 that is not below `a` -/
